@@ -7,6 +7,7 @@
 
 #include <algorithm>
 #include <random>
+#include <stdexcept>
 #include <sstream>
 
 #include "libphysica/Statistics.hpp"
@@ -268,6 +269,7 @@ std::vector<double> draw(std::mt19937& G, const Spec& s, Counters* cnt = nullptr
 			double m = p[1], w = p[2], d0 = p[3], d1 = p[4];
 			int fam = s.family;
 			uint64_t outside				  = 0;
+			bool strict						  = s.bounded && fam >= 2 && fam <= 4 && (bits(p[0]) & 1);
 			std::function<double(double)> pdf = [&, fam, m, w, d0, d1](double x) -> double {
 				tick();
 				if(fam == 0)
@@ -281,7 +283,14 @@ std::vector<double> draw(std::mt19937& G, const Spec& s, Counters* cnt = nullptr
 					return std::fabs(x - m) <= w ? 1.0 : 0.0;	// compact support far from the start: density exactly 0 around the origin
 				double t = (x - d0) / (d1 - d0);
 				if(t < 0 || t > 1)
+				{
 					outside++;
+					// half of the bounded requests come with a density that is DEFINED only on the requested domain (a tabulated
+					// function, a formula with a square root): asked anywhere else it throws, as such a function would exit or
+					// raise. A sampler that honours the domain never asks.
+					if(strict)
+						throw std::domain_error(fmt("density evaluated at %.17g, outside the requested domain [%.17g,%.17g] on which alone it is defined", x, d0, d1));
+				}
 				return fam == 2 ? shape_pdf(1, m, w, t) : fam == 3 ? shape_pdf(0, m, 0, t) + 1e-300 : 1.0;
 			};
 			std::vector<double> dom;
@@ -298,6 +307,7 @@ std::vector<double> draw(std::mt19937& G, const Spec& s, Counters* cnt = nullptr
 			int fam = s.family;
 			double mx = p[2], wx = p[3], my = p[4], wy = p[5];
 			double x0 = p.size() > 9 ? p[6] : 0, x1 = p.size() > 9 ? p[7] : 1, y0 = p.size() > 9 ? p[8] : 0, y1 = p.size() > 9 ? p[9] : 1;
+			bool strict2 = s.bounded && fam == 1 && p.size() > 9 && (bits(p[0]) & 1);
 			std::function<double(double, double)> pdf = [=](double x, double y) -> double {
 				tick();
 				if(fam == 0)
@@ -311,6 +321,8 @@ std::vector<double> draw(std::mt19937& G, const Spec& s, Counters* cnt = nullptr
 					double zx = (x - mx) / wx, zy = (y - my) / wy, rho = p[6];
 					return std::exp(-0.5 * (zx * zx - 2 * rho * zx * zy + zy * zy) / (1 - rho * rho));
 				}
+				if(strict2 && !(x >= x0 && x <= x1 && y >= y0 && y <= y1))
+					throw std::domain_error(fmt("density evaluated at (%.17g,%.17g), outside the requested domain on which alone it is defined", x, y));
 				return (x - x0) / (x1 - x0) + (y - y0) / (y1 - y0) + 1e-300;
 			};
 			std::vector<double> dom;
@@ -846,6 +858,7 @@ struct Exec
 		for(size_t k = 0; k < plan.ops.size(); k++)
 		{
 			const Op& o = plan.ops[k];
+			ctx.on_thread(o.t, [&] {
 			ctx.begin_op((int) k);
 			ctx.log.str(o.kind);
 			if(o.kind == "seed")
@@ -893,7 +906,7 @@ struct Exec
 			{
 				Spec s;
 				if(!op_spec(o, s))
-					continue;
+					return;
 				if(s.kind == 8)
 				{
 					std::mt19937 before = G;
@@ -906,6 +919,7 @@ struct Exec
 				else
 					exec_sampler(s);
 			}
+			});
 		}
 		if(kinds_seen.size() >= 3 && nonfresh_start)
 			ctx.sh->nontrivial = 1;
